@@ -25,6 +25,13 @@ def extract(ctx):
                        stderr=subprocess.STDOUT, text=True, timeout=120)
     if p.returncode != 0 or not os.path.exists(GEN):
         raise checklib.CheckError("C08 fact extractor failed: " + p.stdout[-800:])
+    genp = os.path.join(checklib.LEAN, "Ecal", "Gen", "C08Print.lean")
+    if os.path.exists(genp):
+        os.remove(genp)
+    p = subprocess.run([binp, "C08", "-tool", "isprint", genp], env=checklib.GOENV, stdout=subprocess.PIPE,
+                       stderr=subprocess.STDOUT, text=True, timeout=120)
+    if p.returncode != 0 or not os.path.exists(genp):
+        raise checklib.CheckError("C08 strconv.IsPrint table extractor failed: " + p.stdout[-800:])
     gen = open(GEN).read()
     established = "def shapeOk : Bool := true" in gen
     ctx.coverage["bracket_rule_translated"] = established
@@ -61,7 +68,10 @@ SPEC = dict(
           "round trip verdicts rt/idem/beh against what the theorems predict. Non-trivial = AST with at least 3 nodes."),
     exhaustive="depth-2 operator nestings, statement pairs, string atom sequences up to the stated length",
     trusted_base=[
-        "the AST handed to the printer model is the one the real parser built (serialised by reflection incl. binding / left denotation); the Lean lexer/parser models are not used",
+        "the AST handed to the printer model is the one the real parser built (serialised by reflection incl. binding / left denotation); the correspondence run does not use the Lean lexer/parser models",
+        "quote_lex_roundtrip and parser_reads_* are about Ecal.Lex.lexValue / Ecal.Parse.run (Lexer.lean, Parser.lean); the tie of those models to lexer.go / parser.go is the correspondence run of C18 / C07, not of this check",
+        "Ecal.Print.isPrint consults a table regenerated from strconv.IsPrint of the Go toolchain in use (lean/Ecal/Gen/C08Print.lean); quote_lex_roundtrip does not depend on it (it holds for every predicate that is false on the newline)",
+        "tool.FormatFiles: tested only (file bytes = PrettyPrint text + newline on parseable sources, other extension untouched); unparseable files, sub-directories, symlinked roots, file modes and write errors are not exercised",
         "rt/idem/beh are computed by the real parser, printer and interpreter; the tree equality (names, values, nesting, raw-vs-interpolating kind; ignores positions, comments, blank lines) is implemented in the harness",
         "go/ast extractor translating ppNeedsBrackets / astNodeMap / ndPrefix into lean/Ecal/Gen/C08.lean",
         "theorems are about the expression-level model and the string-literal model; statements, comments and blank lines are covered by the correspondence run only",
@@ -69,6 +79,8 @@ SPEC = dict(
     assumptions=[
         "no rt verdict is predicted for the structurally defined class newline-inside-statement: a /* */ comment in front of a token that does not start its statement, a blank line directly behind the keyword of a return statement, a bare return used as an operand, a composition access [..] behind a call/access of the same identifier chain whose text spans lines (x := a([1,2,3,4,5])[0]), a # comment unless it sits on an identifier/number leaf and is printed directly behind that token at the end of a line",
         "no idem verdict is predicted for the class layout-not-idempotent: the class above, any /* */ comment, a blank line in front of a token that does not start its statement or in front of an infix operator, a mutex/sink statement followed by a statement without a blank line before it",
+        "consequence: the comment / blank-line dimension of the quantifier is essentially unverified for rt (848 quick cases) and idem (1446 quick cases) — text fidelity of the printer model is checked there, Go's verdicts are only counted",
+        "inside the classes with a definite rt=diff (raw-string-kind, mul-right-brackets) the trees must agree modulo the known local difference (eqm=ok: raw flag ignored, product spliced into the left spine of its right operand) and behaviour must be preserved unless a raw string contains {{, or (mul-right-brackets) the original itself raises an error / has side effects, where re-association may change which error is raised first; stmt-starts-with-sign and bare-return-at-end predict the exact verdicts",
         "all classes are computed independently by the harness (Go AST) and the driver (payload AST); Go's real outcomes inside the classes are counted in input_distribution; outside the classes rt=ok idem=ok is demanded",
     ],
     decode=decode,
@@ -81,12 +93,12 @@ META = dict(
     level_text=("Proof: for operator trees of ANY depth over the real table, outside the known class mul-right-brackets, the "
                 "printer's local bracket rule yields admissible parentheses and the Pratt parser reads the printed tokens back "
                 "to the same tree (hence idempotence there); lex(quote v)=v with allowEscapes=true for EVERY byte string on the real printer "
-                "and lexer models (Ecal.Print.quote / Ecal.Lex.lexValue); terminal and prefix templates re-parse on the real parser "
-                "model (Ecal.Parse.run); kind preserved for non-raw "
+                "and lexer models (Ecal.Print.quoteWith ip / Ecal.Lex.lexValue, for every printability predicate ip that is false on the newline); two parser-only lemmas on Ecal.Parse.run "
+                "(terminal, keyword + operand); bracket rule of return <value>; kind preserved for non-raw "
                 "literals; negative witnesses for the two known classes. Statements, comments, blank lines: differential test "
                 "only (text identical to the model printer; Go round trip)."),
     level_note=("Trusted: Lean kernel + propext/Classical.choice/Quot.sound; the extractor; the harness' tree equality. "
-                "Known deviations with classifiers: raw-string-kind, mul-right-brackets, stmt-starts-with-sign, "
+                "FormatFiles is tested only. Known deviations with classifiers: raw-string-kind, mul-right-brackets, stmt-starts-with-sign, bare-return-at-end, "
                 "newline-inside-statement, layout-not-idempotent."),
 )
 
